@@ -32,6 +32,9 @@ use crate::util::ErrInto;
 /// invocation may take, so a non-terminating macro yields an error rather
 /// than hanging the compiler.
 const MACRO_TIME_LIMIT: usize = 1000000;
+// A macro expansion may use macros again; this bounds how deep that goes so a
+// macro which expands to itself is reported instead of overflowing the stack.
+const MACRO_EXPANSION_DEPTH_LIMIT: usize = 64;
 
 /// Determines how an included file is used.
 ///
@@ -57,6 +60,8 @@ struct Preprocessor {
     stored_macros: HashMap<Vec<u8>, Rc<SExp>>,
     // Names of the include files currently being read, outermost first.
     include_stack: Vec<Vec<u8>>,
+    // How many macro expansions are in progress, one inside the result of another.
+    expansion_depth: usize,
 }
 
 fn compose_defconst(loc: Srcloc, name: &[u8], sexp: Rc<SExp>) -> Rc<SExp> {
@@ -109,6 +114,7 @@ impl Preprocessor {
             strict: opts.dialect().strict,
             stored_macros: HashMap::default(),
             include_stack: Vec::new(),
+            expansion_depth: 0,
         }
     }
 
@@ -384,7 +390,23 @@ impl Preprocessor {
                         .map(nilize)
                         .map_err(CompileErr::from)?;
 
-                        if let Some(final_result) = self.expand_macros(res.clone(), true)? {
+                        // The result may use macros again, but a macro whose
+                        // expansion contains itself would never finish.
+                        if self.expansion_depth >= MACRO_EXPANSION_DEPTH_LIMIT {
+                            return Err(CompileErr(
+                                body.loc(),
+                                format!(
+                                    "macro {} expands more than {} levels deep",
+                                    decode_string(&name),
+                                    MACRO_EXPANSION_DEPTH_LIMIT
+                                ),
+                            ));
+                        }
+                        self.expansion_depth += 1;
+                        let expanded_result = self.expand_macros(res.clone(), true);
+                        self.expansion_depth -= 1;
+
+                        if let Some(final_result) = expanded_result? {
                             return Ok(Some(final_result));
                         } else {
                             return Ok(Some(res));
